@@ -199,7 +199,14 @@ func (g *gen) call0(x *ssa.Call, st State, reach string) string {
 	}
 	// contract?
 	if fc := g.lookupContract(c, name); fc != nil {
-		return g.callContract(x, fc, name, args, argTypes, st, reach)
+		if !fc.Extern && len(fc.ParamNames) != len(args) {
+			// the callee's signature changed under its contract: the contract cannot be applied at this call;
+			// the callee is summarised by its write set like any uncontracted callee (its own obligations are
+			// still checked in its own verification, without the preconditions that can no longer be stated)
+			g.ctx.note(fmt.Sprintf("contract of %s does not fit this call (%d parameters declared, %d passed): callee treated as uncontracted", fc.Key, len(fc.ParamNames), len(args)))
+		} else {
+			return g.callContract(x, fc, name, args, argTypes, st, reach)
+		}
 	}
 	// inline small in-package helpers on request
 	if callee, ok := c.Value.(*ssa.Function); ok {
